@@ -4,6 +4,7 @@ import LyModel.Valid.LemmasUnique
 import LyModel.Valid.LemmasNew
 import LyModel.Valid.LemmasFamily
 import LyModel.Valid.LemmasIff2
+import LyModel.Valid.LemmasTag
 /-!
 # C02 — validation accepts exactly the instances that satisfy the schema
 
@@ -125,8 +126,8 @@ The families below are composed over the whole tree into `validate_ok_iff_valid`
 -- data interleaves with the checks; the F60 / F65 / F66 variants of the code violate it there).  For that class the iff is
 -- evaluated on the implementation (law `iff` of tools/checks/c02.py, both directions, every run) and the model is compared with
 -- the specification by the `spec` operation; what is proved is the family-level equivalences of this table.
--- OPEN: `validate_error_tag` (first error = first violated constraint in the C's check order) and `verdict_order_independent`
--- (the verdict is invariant under reordering siblings of different schema nodes) are laws (`tag`, `apptag`, `order`) only.
+-- OPEN: `validate_error_tag` beyond plain schemas, and `verdict_order_independent` (the verdict is invariant under reordering
+-- the siblings) are laws (`tag`, `apptag`, `order`) only.
 
 | family (error kind)              | theorem                                   | RFC 7950 |
 |----------------------------------|-------------------------------------------|----------|
@@ -217,7 +218,7 @@ theorem validate_ok_iff_valid (X : SchemaX) (o : VOpts) (hop : o.operational = f
     simp only [hpe, if_true]
     rfl
   · have hpe' : (o.present && t.isEmpty) = false := by simpa using hpe
-    simp only [hpe', Bool.false_eq_true, if_false]
+    simp only [hpe', Bool.false_eq_true, if_false, dfltStateL_fresh X.base t hfr, Bool.and_false, List.append_nil]
     rw [validate_errs_iff X o hop hu hl hps t hp hh hfr hlen hlen0 hpe',
       spec_iff_lvlOk X o hu hl (fun k hk => (hps k hk).1) hio t hp hfr hsh, lvlOk_top_iff]
 
@@ -250,5 +251,56 @@ example : KidsLookupOk Xp ∧ PlainSane Xp ∧ InfoOk Xp ∧ Xp.uniques = [] ∧
     violations Xp { noState := true } tBad = [.dup, .noMand, .noMin, .unexpState] := by
   refine ⟨lookupOk_of_B Xp (by decide), plainSane_of_B Xp (by decide), infoOk_of_B Xp (by decide), by decide, by decide, by decide,
     by decide, by decide, by decide, by decide, by decide, by decide, by decide, by decide⟩
+
+
+/-- **`validate_error_tag`, plain schemas** (same class and hypotheses as `validate_ok_iff_valid`): every error `lyd_validate`
+logs — the first one, which is the verdict without `LYD_VALIDATE_MULTI_ERROR`, and every further one with it — is of a constraint
+family the instance violates according to the specification: a `Dup` error only where two instances of a leaf / container, two
+equal configuration leaf-list values or two list entries with the same keys exist, `NoMin` / `NoMax` (app-tags `too-few-elements`
+/ `too-many-elements`, `EKind.appTag`) only where a (leaf-)list has too few / too many entries, `NoMand` only where a mandatory
+leaf is missing in an existing parent, `UnexpState` only where state data exists under `LYD_VALIDATE_NO_STATE`. -/
+theorem validate_error_tag (X : SchemaX) (o : VOpts) (hop : o.operational = false) (hu : X.uniques = []) (hl : KidsLookupOk X)
+    (hps : PlainSane X) (hio : InfoOk X) (t : List DNode) (hp : placedL X X.top t = true) (hsh : shapedL X X.top t = true)
+    (hh : sheightL X.top ≤ walkFuel X t) (hfr : isFreshL t = true) (hlen : lenOkL t = true) (hlen0 : t.length ≤ uint32Max) :
+    ∀ e ∈ (validate X o t).errs, e.kind ∈ violations X o t := by
+  intro e he
+  by_cases hpe : (o.present && t.isEmpty) = true
+  · unfold validate at he
+    simp only [hpe, if_true] at he
+    cases he
+  · have hpe' : (o.present && t.isEmpty) = false := by simpa using hpe
+    unfold violations
+    simp only [hpe', Bool.false_eq_true, if_false]
+    rw [List.mem_append]
+    left
+    show e.kind ∈ specL X o X.top (explicitL t)
+    rw [explicitL_fresh _ hfr]
+    have hpl : PlainX X := fun k hk => (hps k hk).1
+    have hsk : ∀ k ∈ X.top, BelowL k X.top := fun k hk => BelowL.of_mem hk
+    have hplain : ∀ k ∈ X.top, plainNode k = true := fun k hk => hpl k (hsk k hk)
+    have hinfo : ∀ k ∈ X.top, InfoFacts X.base k := fun k hk => infoFacts_of_get _ _ (hio k (hsk k hk))
+    have hpa := (placedL_all X X.top t).1 hp
+    have hplaced : ∀ n ∈ t, ∃ k ∈ X.top, k.sid = n.sid := fun n hn => by
+      obtain ⟨k, hk, hs⟩ := List.any_eq_true.1 (hpa n hn).1
+      exact ⟨k, hk, by simpa using hs⟩
+    have hsD : LvSound X o .dup (fun _ sibs => ¬ NoPair X.base sibs) :=
+      fun sk sibs a b c d h => dupBad_spec X o sk sibs a b c d h
+    have hsK : LvSound X o e.kind (fun sk sibs => lvlBad X o sk sibs e.kind) :=
+      fun sk sibs a b c _ h => lvlBad_spec X o sk sibs e.kind a b c h
+    rcases validate_errs_kinds X o hop hu hl hps t hp hh hfr hlen hlen0 hpe' e he with ⟨hk, h | h⟩ | h | h
+    · rw [hk]; exact dupBad_spec X o X.top t hplain hinfo hplaced hfr h
+    · rw [hk]
+      obtain ⟨n', hn', k', hk', hs', hnt, hshape, hK⟩ := deepBadL_spec X o .dup _ hsD hl hpl hio t X.top hsk hp hfr hsh h
+      exact spec_lift X o .dup X.top t n' hn' k' hk' hs' (hplain k' hk') hnt hshape hK
+    · exact lvlBad_spec X o X.top t e.kind hplain hinfo hplaced h
+    · obtain ⟨n', hn', k', hk', hs', hnt, hshape, hK⟩ := deepBadL_spec X o e.kind _ hsK hl hpl hio t X.top hsk hp hfr hsh h
+      exact spec_lift X o e.kind X.top t n' hn' k' hk' hs' (hplain k' hk') hnt hshape hK
+
+/-- non-vacuity: the four errors the model logs on `tBad` are of the three families the specification lists; with
+`LYD_VALIDATE_NO_STATE` the fifth one is the state leaf -/
+example : ((validate Xp {} tBad).errs.all fun e => (violations Xp {} tBad).contains e.kind) = true ∧
+    ((validate Xp { noState := true } tBad).errs.map (·.kind)) = [.dup, .dup, .unexpState, .noMin, .noMand] ∧
+    ((validate Xp { noState := true } tBad).errs.all fun e => (violations Xp { noState := true } tBad).contains e.kind) = true := by
+  refine ⟨by decide, by decide, by decide⟩
 
 end LyModel.Props.C02
